@@ -37,7 +37,9 @@ DIMS = {
     'planet': [[1.0, 1.0], [0.5, 0.1], [1.7, 3.0]],
     'rstar': [1.0, 0.3],
     'T': [['iso', 1000.0], ['dec'], ['inc'], ['nonmono'], ['outside']],
-    'abund': [['const', 1e-4], ['array', [1e-3, 1e-6]], ['const', 0.0], ['array', [1e-12, 1e-12, 3e-2, 3e-2]]],
+    # the last two: exactly absent in the lower layers and present aloft; present below and aloft with a gap between
+    'abund': [['const', 1e-4], ['array', [1e-3, 1e-6]], ['const', 0.0], ['array', [1e-12, 1e-12, 3e-2, 3e-2]],
+              ['array', [0.0, 0.0, 3e-3, 3e-3]], ['array', [1e-3, 0.0, 0.0, 1e-3]]],
     'mode': ['linear', 'exp'],
 }
 # 'abs' first in default so that the default case is non-trivial
